@@ -64,7 +64,7 @@ func cmdRun(args []string) {
 	if err != nil {
 		fatalf("overlay: %v", err)
 	}
-	L, err := loadProgram(repoDir(), ov, []string{p, vrtPkg})
+	L, err := loadProgram(repoDir(), ov, rootsFor([]string{p}))
 	if err != nil {
 		fatalf("load: %v", err)
 	}
